@@ -107,6 +107,7 @@ package jsonclient
 //@ at wb assert [failed-attempts-back-off-first] pp.res2 != nil ==> s1.called
 //@ at wb assert [408-retries-without-touching-the-backoff] pp.res2 == nil && status == 408 ==> !s1.called && !s2.called
 //@ at wb assert [context-errors-are-not-retried] pp.res2 != nil ==> pp.res2 != context.Canceled && pp.res2 != context.DeadlineExceeded
+//@ loop 1 step-assert [another-attempt-is-made-only-after-the-shared-wait-has-returned-without-error] pp.called && wb.called && wb.res == nil
 
 //@ func (*JSONClient).GetAndParse
 //@ props C12
